@@ -1,6 +1,6 @@
 (* C06 — Source addresses print to strings that parse back to the same address.
    Only statements, each closed by [exact] of a lemma proved elsewhere. *)
-From Slug Require Import Base.Str Base.PathAlg Addr.Resolve Addr.ResolveProofs Addr.Url Addr.Parse Addr.ParseProofs Addr.RoundTrip Addr.RoundTripFinal.
+From Slug Require Import Base.Str Base.PathAlg Addr.Resolve Addr.ResolveProofs Addr.Url Addr.Parse Addr.ParseProofs Addr.RoundTrip Addr.RoundTripFinal Addr.RemoteParse Addr.RemoteTheorems.
 
 (* ---- local addresses ---- *)
 (* a local address value is the text that was parsed: printing and parsing are inverse *)
@@ -59,6 +59,29 @@ Theorem C06_decimal_round_trip :
   forall n, print_N n <> [] /\ forallb is_digit (print_N n) = true /\ digits_val (print_N n) = n.
 Proof. exact print_N_spec. Qed.
 Print Assumptions C06_decimal_round_trip.
+
+(* ---- remote addresses ----
+   [wf_remoteb p sub] (Addr/RemoteTheorems.v): the URL has no opaque part, user information,
+   raw-path hint or fragment; scheme and type are lower case; host, path and sub-path contain no
+   character that URL escaping rewrites; the path is empty or rooted, without "//" and without a
+   trailing "/"; the query has no '#', no control character and does not end in '?'; and the value
+   is a fixed point of makeRemoteSource (as every value built by the parsers or the constructor is).
+   Values outside it are exactly where the known findings KF-C06-1..3 live. *)
+Theorem C06_remote_round_trip :
+  forall p sub, wf_remoteb p sub = true -> parse_remote (remote_string p sub) = Ok (p, sub).
+Proof. exact remote_round_trip. Qed.
+Print Assumptions C06_remote_round_trip.
+
+(* how the parser reads any structured text [type::]scheme://host path [//sub][?query] *)
+Theorem C06_parse_remote_structured :
+  forall typ scheme host path sub query, parts_ok typ scheme host path sub query ->
+    parse_remote (remote_text typ scheme host path sub query) =
+      (if negb (is_empty typ) &&& str_eqb (to_lower typ) (to_lower scheme) then Rej
+       else if snd (parse_query query) then Rej
+       else make_remote (if is_empty typ then to_lower scheme else to_lower typ)
+                        (parsed_url scheme host path query) sub).
+Proof. exact parse_remote_structured. Qed.
+Print Assumptions C06_parse_remote_structured.
 
 (* ---- remote, registry and final registry addresses: where the statement fails ----
    The full statement "every value prints to text that parses back to it" is
